@@ -58,9 +58,9 @@ MANIFEST_TEXT = ('Exhaustive enumeration of ragged sequence collections against 
                  'every list of 1..2 rows (3 rows for rows of length <= 2; thorough: 3 rows of length <= 3 for the 2-letter '
                  'alphabet) whose rows are EVERY string of length 0..3 (thorough: 0..4 for the 2- and 3-letter alphabets) over '
                  'alphabets of size 4 (bit-packed path; thorough also a non-DNA 4-letter alphabet), 2 and 3 (generic path), '
-                 'every window 1..4 (1..5). Part B (every window length): w = {1,2,3,4,5,8,16,31} plus a seed-rotated third of the '
+                 'every window 1..3 or 1..4 (thorough 1..4 or 1..5). Part B (every window length): w = {1,2,3,4,5,8,16,31} plus a seed-rotated third of the '
                  'remaining w (thorough: every w 1..31) x every list of 1..2 rows with lengths from {0,1,w-1,w,w+1,2w} and of '
-                 '3 rows from {0,w-1,w,w+1} (thorough: 3 rows from the full set, 4 rows from {0,w-1,w,w+1}) x ACGT / ACGTN / '
+                 '3 rows from {0,w-1,w,w+1} for the cyclic/quadratic fills (thorough: 3 rows from the full set for all fills, 4 rows from {0,w-1,w,w+1}) x ACGT / ACGTN / '
                  'amino acids x letter fills {cyclic, all-first, all-last, quadratic} x input {freshly encoded, sliced '
                  'non-contiguous view, ASCII text}. Functions on every case: get_kmers, get_minimizers for EVERY k <= w, '
                  'match_string (in-row, boundary-straddling and constant patterns), get_motif_scores (finite and -inf PWM), '
@@ -113,13 +113,14 @@ def bounds(tier, seed):
     if tier == 'quick':
         ext = [w for w in range(1, 32) if w not in QUICK_W and (w + seed) % 3 == 0]
         return {
-            'partA': [{'alphabet': 'ACGT', 'rows': [1, 2], 'max_len': 3, 'windows': [1, 2, 3, 4]},
+            'partA': [{'alphabet': 'ACGT', 'rows': [1, 2], 'max_len': 3, 'windows': [1, 2, 3]},
                       {'alphabet': 'AC', 'rows': [1, 2], 'max_len': 3, 'windows': [1, 2, 3, 4]},
                       {'alphabet': 'AC', 'rows': [3], 'max_len': 2, 'windows': [1, 2, 3]},
                       {'alphabet': 'ACG', 'rows': [1, 2], 'max_len': 3, 'windows': [1, 2, 3, 4]}],
             'partB': {'windows_core': QUICK_W, 'windows_extension_slice(seed-rotated)': ext,
                       'lengths_by_rows': {'1': FULL, '2': FULL, '3': NARROW},
                       'lengths_by_rows_extension': {'1': FULL, '2': FULL},
+                      'three_rows_only_for_fills': ['cyclic', 'quad'],
                       'alphabets': B_ALPHABETS, 'variants(repr,fill)': [list(v) for v in B_VARIANTS_Q],
                       'ascii_only_for': 'ACGT',
                       'minimizer_k': 'every k <= w (generic codes: |A|**k < 2**63)'},
@@ -174,6 +175,8 @@ def sub_shards(tier, seed):
                 for nrows_s, lset in sorted(by_rows.items()):
                     if int(nrows_s) == 4 and (rep, fill) not in four:
                         continue
+                    if int(nrows_s) == 3 and fill not in pb.get('three_rows_only_for_fills', [fill]):
+                        continue
                     out.append({'part': 'B', 'alphabet': name, 'w': w, 'repr': rep, 'fill': fill, 'nrows': int(nrows_s),
                                 'lengths': 'full' if lset == FULL else 'narrow'})
     out.sort(key=lambda d: (d['nrows'], d['w'], d['part'], d['alphabet'], d.get('repr', ''), d.get('fill', ''),
@@ -181,15 +184,38 @@ def sub_shards(tier, seed):
     return out
 
 
+def _simplicity(d):
+    return (d['nrows'], d['w'], d['part'], d['alphabet'], d.get('repr', ''), d.get('fill', ''), d.get('slice', [0])[0])
+
+
+def _estimated_calls(d):
+    """rough number of library calls of a sub-shard (only used to balance the shards)"""
+    km = kmax(ALPHABETS[d['alphabet']])
+    per_case = 7 + min(d['w'], km)
+    if d['part'] == 'A':
+        n_cases = _n_strings(len(ALPHABETS[d['alphabet']]), d['max_len']) ** d['nrows'] / d['slice'][1]
+    else:
+        n_cases = (6 if d['lengths'] == 'full' else 4) ** d['nrows']
+    return n_cases * per_case
+
+
 def shards(tier, seed):
-    """N_BUNDLES shards of similar cost: the sub-shards, sorted simplest first (neighbours cost about the same), are
-    dealt round-robin; each shard runs its sub-shards in that order, so the first exemplar of a failure is small."""
+    """N_BUNDLES shards of similar cost: sub-shards are assigned, most expensive first, to the least loaded shard;
+    each shard runs its sub-shards simplest first, so the first exemplar of a failure group is a small case."""
     M.selftest()
     subs = sub_shards(tier, seed)
-    bundles = [{'bundle': i, 'of': N_BUNDLES, 'tier': tier, 'subs': []} for i in range(N_BUNDLES)]
-    for i, d in enumerate(subs):
-        bundles[i % N_BUNDLES]['subs'].append(d)
-    return [b for b in bundles if b['subs']]
+    bundles = [{'tier': tier, 'subs': [], 'estimated_calls': 0} for _ in range(N_BUNDLES)]
+    for d in sorted(subs, key=lambda d: (-_estimated_calls(d), _simplicity(d))):
+        b = min(bundles, key=lambda b: b['estimated_calls'])
+        b['subs'].append(d)
+        b['estimated_calls'] += int(_estimated_calls(d))
+    bundles = [b for b in bundles if b['subs']]
+    for b in bundles:
+        b['subs'].sort(key=_simplicity)
+    bundles.sort(key=lambda b: _simplicity(b['subs'][0]))
+    for i, b in enumerate(bundles):
+        b['shard'] = i
+    return bundles
 
 
 # --------------------------------------------------------------------------- case generation
